@@ -767,10 +767,15 @@ Definition wf_sinks (l : list sink_site) : bool :=
 Definition kind_code : skind -> N := kind_code_of.
 
 Record case := {
+  c_text : bool;          (* the texts below are present (documents over 4000 characters are compared as trees only) *)
+  c_doc_text : str;       (* the document as given to serde_json::from_str, as code points *)
+  c_has_ast : bool;       (* the harness's own parser accepted the text; c_doc is its tree *)
   c_doc : json;
   c_impl_ok : bool;
   c_impl_re : json;
-  c_impl_kind : N
+  c_impl_kind : N;
+  c_impl_text : str;      (* serde_json::to_string of the frame read back *)
+  c_impl_pretty : str     (* serde_json::to_string_pretty of the one-element array of it (snapshot form) *)
 }.
 
 (* serde_json's recursion limit: a document nested 128 deep or more is rejected before any of the rules
@@ -779,16 +784,34 @@ Definition DEPTH_LIMIT : nat := 128.
 Definition read_doc (s : schema) (j : json) : option event :=
   if Nat.leb DEPTH_LIMIT (json_depth j) then None else decode_event s j.
 
+(* the model's reading of a case: through its own parser when the text is there *)
+Definition case_read (s : schema) (c : case) : option event :=
+  if c_text c then read_line s (c_doc_text c) else read_doc s (c_doc c).
+
+Definition option_json_eqb (a : option json) (b : json) : bool :=
+  match a with Some x => json_eqb x b | None => false end.
+
 Definition check_doc (s : schema) (c : case) : bool :=
-  match read_doc s (c_doc c) with
-  | Some e =>
-    c_impl_ok c && json_eqb (encode_event s e) (c_impl_re c) && (kind_code (event_kind s e) =? c_impl_kind c)
-  | None => negb (c_impl_ok c)
-  end.
+  (* the model's parser and the harness's parser see the same tree (or the model refuses for depth) *)
+  (if c_text c && c_has_ast c
+   then option_json_eqb (parse (c_doc_text c)) (c_doc c)
+        || (Nat.leb DEPTH_LIMIT (json_depth (c_doc c)) && match parse (c_doc_text c) with None => true | Some _ => false end)
+   else true)
+  && (if c_text c then true else c_has_ast c)
+  && match case_read s c with
+     | Some e =>
+       c_impl_ok c && json_eqb (encode_event s e) (c_impl_re c) && (kind_code (event_kind s e) =? c_impl_kind c)
+       && (if c_text c
+           then str_eqb (write_line s e) (c_impl_text c)                       (* compact printer = serde_json::to_string *)
+                && str_eqb (write_snapshot s [e]) (c_impl_pretty c)            (* pretty printer = to_string_pretty *)
+                && option_json_eqb (parse (c_impl_text c)) (c_impl_re c)       (* model parser on serde's output *)
+           else true)
+     | None => negb (c_impl_ok c)
+     end.
 
 (* observation printed for a disagreeing case: 1/0 model accepted, kind code, length of the model's output *)
 Definition doc_obs (s : schema) (c : case) : list N :=
-  match read_doc s (c_doc c) with
+  match case_read s c with
   | Some e => [1; kind_code (event_kind s e); N.of_nat (e_var e)] ++ Json.print (encode_event s e)
   | None => [0]
   end.
